@@ -407,3 +407,5 @@ Fixpoint check_C08 (c : cfg) (st : state) (ops : list op) : bool :=
        | _ => match ms with [] => true | _ => false end
        end) && check_C08 c st1 r
   end.
+
+Definition check_case (x : cfg * nat * list op) : bool := let '(c, _, ops) := x in check_C08 c init ops.
